@@ -258,6 +258,33 @@ func (g *gen) corpus() {
 		Acts: []Act{{}, {MBackCh, 0, 1}}, CloseDuring: none, Tag: "backchannel-not-requested"})
 }
 
+// sweep: every method-specific mutation once per protocol, on every run (the SETUP response validation and
+// the DESCRIBE checks are the decision trees the model transcribes)
+func (g *gen) sweep() {
+	for proto := 0; proto < 3; proto++ {
+		for i, v := range setupVariants {
+			cfg := Cfg{Proto: proto, NMedia: 2, AnyPort: i % 2}
+			for _, pos := range []int{2, 3} { // first and second SETUP of OPTIONS DESCRIBE SETUP SETUP PLAY
+				cs := &Case{Cfg: cfg, Steps: flowSteps(flowPlay, 2, false, false), CloseDuring: -1, Tag: "sweep-setup"}
+				setAct(cs, pos, v)
+				g.add(cs)
+			}
+		}
+		for i, v := range describeVariants {
+			cfg := Cfg{Proto: proto, NMedia: 2, Creds: i % 2, Back: (i / 2) % 2}
+			cs := &Case{Cfg: cfg, Steps: flowSteps(flowPlay, 2, false, false), CloseDuring: -1, Tag: "sweep-describe"}
+			setAct(cs, 1, v)
+			g.add(cs)
+		}
+	}
+	for i, v := range setupVariants { // record side: server ports are mandatory whatever AnyPortEnable says
+		cfg := Cfg{Proto: 1, NMedia: 1, AnyPort: i % 2}
+		cs := &Case{Cfg: cfg, Steps: flowSteps(flowRecord, 1, false, false), CloseDuring: -1, Tag: "sweep-setup"}
+		setAct(cs, 2, v)
+		g.add(cs)
+	}
+}
+
 func (g *gen) structured(n int) {
 	r := g.r
 	for i := 0; i < n; i++ {
@@ -724,7 +751,8 @@ func main() {
 		}
 	} else {
 		g.corpus()
-		g.structured(ctx.Budget(800, 12000))
+		g.sweep()
+		g.structured(ctx.Budget(700, 12000))
 		g.malformed(ctx.Budget(240, 4000))
 		if ctx.Thorough {
 			for proto := 0; proto < 3; proto++ {
@@ -943,7 +971,8 @@ func evaluate(o *outcomeRec) (e evalRes) {
 			e.panicked = true
 			e.failf(classifyPanic(cs, o.panicTx), "client process died (%s): %s", cs.Tag, panicSummary(o.panicTx))
 			// the model must predict the panic from the events the server emitted before it
-			cov := cs.CloseDuring < 0
+			// (not when the caller mixes an announced and a described session: base URLs differ)
+			cov := cs.CloseDuring < 0 && !(hasOp(cs, opAnnounce) && hasOp(cs, opDescribe))
 			for _, r := range o.records {
 				cov = cov && r.Covered
 			}
@@ -1074,6 +1103,15 @@ func evaluate(o *outcomeRec) (e evalRes) {
 	l.I(leak)
 	e.hasCorr, e.corrCase, e.corrImpl = true, caseLine(cs, r.Records), l.String()
 	return e
+}
+
+func hasOp(cs *Case, op int) bool {
+	for _, s := range cs.Steps {
+		if s.Op == op {
+			return true
+		}
+	}
+	return false
 }
 
 func hasIdle(cs *Case) bool {
